@@ -214,6 +214,27 @@ Definition transfer_from_common_escrow_original (cden bal ts pool amount rate : 
       do sh <- shares_for_stake bal1 ts com ;
       Ok (Some (rem, com, sh, 0)).
 
+(* (b'') distributeSlashedFunds -- apps/roothash/slashing.go:151-209: the runtime's account gets
+   [pct] percent of the slashed total, the rest is split evenly among the other addresses
+   (discrepancy resolvers / the evidence submitter).  The percentages come from the runtime
+   descriptor, whose validity (RuntimeStakingParameters.ValidateBasic, registry/api/runtime.go:
+   257-265) is checked at registration.
+   Output: (runtime share, share of each other address). *)
+Definition distribute_slashed (total pct nothers : N) : res (N * N) :=
+  do rshare <- qquo (total * pct) 100 ;                    (* :161-166 *)
+  if nothers =? 0 then Ok (rshare, 0)                      (* :177-181 *)
+  else
+    do rest <- qsub total rshare ;                         (* :185-187 *)
+    do each <- qquo rest nothers ;                         (* :188-190 *)
+    Ok (rshare, each).
+
+(* what registration enforces on the two reward percentages *)
+Definition rt_percent_valid (pct_equivocation pct_bad_results : N) : bool :=
+  (pct_equivocation <=? 100) && (pct_bad_results <=? 100).
+(* the seeded copy/paste variant tests the equivocation percentage twice *)
+Definition rt_percent_valid_copy_paste (pct_equivocation pct_bad_results : N) : bool :=
+  (pct_equivocation <=? 100) && (pct_equivocation <=? 100).
+
 (* ------------------------------------------------------------------ *)
 (* (d) slashing -- state.go:768-855.  slashPool moves min(balance, balance*amount/total). *)
 Definition slash_pool (bal amount total : N) : res N :=
